@@ -37,6 +37,14 @@ var c05Palettes = [][2]*corpus.Q{
 	{{T: "rawconfig", Flags: 1 | 8}, {T: "reporegexp", Pat: "^org/"}},
 	{{T: "regex", Pat: "a.c"}, {T: "substr", Pat: "a.c", CT: true}},
 	{{T: "substr", Pat: "ab", FN: true, CT: true}, {T: "substr", Pat: "ab", CT: true}},
+	// pairs of different atoms that PRINT the same (String() abbreviates sets to their size and
+	// leaves out some flags): a rewrite must not identify operands by their printout
+	{{T: "repoids", IDs: []uint32{1, 3}}, {T: "repoids", IDs: []uint32{2, 3}}},
+	{{T: "reposet", Names: []string{"a/1", "a/2", "a/3", "a/4", "a/5", "a/6"}}, {T: "reposet", Names: []string{"b/1", "b/2", "b/3", "b/4", "b/5", "b/6"}}},
+	{{T: "filenameset", Names: []string{"1.go", "2.go", "3.go", "4.go", "5.go", "6.go"}}, {T: "filenameset", Names: []string{"a.go", "b.go", "c.go", "d.go", "e.go", "f.go"}}},
+	{{T: "regex", Pat: "a.c", CT: true}, {T: "regex", Pat: "a.c"}},
+	{{T: "substr", Pat: "ab", FN: true, CT: true}, {T: "substr", Pat: "ab", FN: true}},
+	{{T: "branchesrepos", BR: []corpus.BranchIDs{{Branch: "HEAD", IDs: []uint32{1, 2}}}}, {T: "branchesrepos", BR: []corpus.BranchIDs{{Branch: "HEAD", IDs: []uint32{3, 4}}}}},
 }
 
 func c05Leaf(palette, salt int) func(string, int) *corpus.Q {
